@@ -38,7 +38,7 @@ def classify(run, case, impl, model):
         p = o.split(":")
         return p[0] + ("/" + p[1] if p[0] == "err" and len(p) > 1 else "")
 
-    if op == "decode":
+    if op in ("decode", "decodex"):
         fi, fm = impl.split(), model.split()
         for a, b in zip(fi, fm):
             if a != b:
@@ -47,9 +47,9 @@ def classify(run, case, impl, model):
                     pa, pb = a.split(":"), b.split(":")
                     d = [str(i) for i in range(min(len(pa), len(pb))) if pa[i] != pb[i]]
                     fa = [x for x in pa if x in ("A0", "A1", "c0", "c1")]
-                    return "decode/impl=%s/model=%s/field=%s/%s" % (k(a), k(b), "+".join(d), "".join(fa))
-                return "decode/impl=%s/model=%s" % (k(a), k(b))
-        return "decode/length"
+                    return "%s/impl=%s/model=%s/field=%s/%s" % (op, k(a), k(b), "+".join(d), "".join(fa))
+                return "%s/impl=%s/model=%s" % (op, k(a), k(b))
+        return op + "/length"
     fi, fm = impl.split(), model.split()
 
     def k2(f):
